@@ -273,6 +273,12 @@ func vh_C01_layoutsigs(a []int) {
 	vObserve("layoutsigs", err == nil)
 	want := nsupplied >= 1 && nsupplied <= nsigned && !alter
 	vAssert("C01.layout-accepted-iff-every-supplied-key-signed-the-current-content", (err == nil) == want)
+	// history: after this verification, an impostor key (the id of key 0 with other material) is still refused
+	if nsupplied >= 1 {
+		imp := vhEdKey(1, false)
+		imp.KeyID = vhEdIDs[0]
+		vAssert("C01.impostor-key-under-a-known-id-is-refused-after-a-genuine-verification", VerifyLayoutSignatures(md, map[string]Key{imp.KeyID: imp}) != nil)
+	}
 	// the payload handed out is the signed one
 	l, ok := md.GetPayload().(Layout)
 	vAssert("C01.payload-is-the-layout", ok && (l.Readme == "R0") == !alter)
